@@ -40,6 +40,8 @@ def skeletons(tier):
                 args = [None, [S1]]
             for a in args:
                 out.append({"id": f"{w}-streams{a}", "word": w, "params": {"streams": a, "sync": False}})
+    for w in ("ab", "bb", "aab"):
+        out.append({"id": f"{w}-second-rank", "word": w, "params": {"streams": None, "sync": False, "lead": True}})
     for pre in ("temporal", "queue", "launch", "kernels"):
         out.append({"id": f"aa-after-{pre}", "word": "aa", "params": {"streams": None, "sync": False, "pre": [pre]}})
     if tier == "thorough":
@@ -82,16 +84,33 @@ def run(ctx):
         for b in range(a + 1, len(K)):
             if K[a]["stream"] == K[b]["stream"]:
                 ctx.assume(sor(K[a]["end"] <= K[b]["ts"], K[b]["end"] <= K[a]["ts"]))
-    ta = ctx.open({0: events})
+    R = 0
+    if ctx.params.get("lead"):
+        # "every ... rank": another rank is requested first in the same call; it has a single kernel on the first stream
+        # only (so it contributes no gap); the rank under test is rank 1 and may use a stream rank 0 does not have
+        lead = ctx.val([TG.op("aten::mm", "$zop_ts", "$zop_dur"),
+                        TG.runtime("cudaLaunchKernel", "$zl_ts", "$zl_dur", corr=100),
+                        TG.kernel("gemm_kernel", "$zk_ts", "$zk_dur", stream=S1, corr=100)])
+        zo, zl = (ctx.val("$zop_ts"), ctx.val("$zop_ts") + ctx.val("$zop_dur")), (ctx.val("$zl_ts"), ctx.val("$zl_ts") + ctx.val("$zl_dur"))
+        ctx.assume(sor(zo[1] <= zl[0], zl[1] <= zo[0], sand(zo[0] <= zl[0], zl[1] <= zo[1]), sand(zl[0] <= zo[0], zo[1] <= zl[1])))
+        ta = ctx.open({0: lead, 1: events})
+        R = 1
+    else:
+        ta = ctx.open({0: events})
     streams = ctx.params["streams"]
     precalls(ctx, ta)
-    res, _ = ta.get_idle_time_breakdown(ranks=[0], streams=streams, visualize=False, consecutive_kernel_delay=thr)
-    r_stream = [int(x) for x in ctx.cells(res["stream"])]
-    r_cat = [str(x) for x in ctx.cells(res["idle_category"])]
-    r_time = ctx.cells(res["idle_time"])
-    r_ratio = ctx.cells(res["idle_time_ratio"])
-    r_rank = [int(x) for x in ctx.cells(res["rank"])]
-    ctx.prove(all(x == 0 for x in r_rank), "rank-column", None)
+    res, _ = ta.get_idle_time_breakdown(ranks=[0, 1] if R else [0], streams=streams, visualize=False,
+                                        consecutive_kernel_delay=thr)
+    all_rank = [int(x) for x in ctx.cells(res["rank"])]
+    ctx.prove(all(x in (0, R) for x in all_rank), "rank-column", None)
+    keep = [j for j, x in enumerate(all_rank) if x == R]
+    if R:
+        lead_time = [v for j, v in enumerate(ctx.cells(res["idle_time"])) if all_rank[j] == 0]
+        ctx.prove(sand(*[v == 0 for v in lead_time]) if lead_time else True, "single-kernel-rank-has-no-idle-time", None)
+    r_stream = [int(x) for j, x in enumerate(ctx.cells(res["stream"])) if j in keep]
+    r_cat = [str(x) for j, x in enumerate(ctx.cells(res["idle_category"])) if j in keep]
+    r_time = [x for j, x in enumerate(ctx.cells(res["idle_time"])) if j in keep]
+    r_ratio = [x for j, x in enumerate(ctx.cells(res["idle_time_ratio"])) if j in keep]
     ctx.prove(all(c in CATS.values() for c in r_cat), "category-names", {"cats": r_cat})
     want_streams = sorted({k["stream"] for k in K}) if not streams else list(streams)
     ctx.prove(set(r_stream) <= set(want_streams), "streams-reported", {"got": r_stream})
